@@ -23,7 +23,16 @@
   check_nonce_nc and in calculate_add_nonce; one model step is one such
   critical section.  The theorems are over *arbitrary sequences* of steps,
   which therefore covers every interleaving of concurrent presentations and
-  registrations (that the lock is really held is C18's subject).
+  registrations; that every access to the table is really made under the lock
+  is the theorem `nonce_table_accessed_only_under_lock` over the lock table
+  regenerated from the clang AST at every run.
+
+  Generation.  The registered nonces are tied to the code that makes them:
+  section "nonce generation" composes `Mhd.Dauth.calcNonce` (calculate_nonce at
+  the byte level, hash = C16's specification) and `Mhd.NonceGen.calcAddNonce
+  (Retry)` with the runs of this file (`generation_is_run_step`,
+  `generated_nonce_wellformed`, `generated_then_verified`, `bound_*`,
+  `nonce_length_matches_algorithm`, `retry_*`).
 
   The history of a run is kept most-recent-first; its abstract view is
     lastAdd  size h i   the nonce registered last in slot i
@@ -32,6 +41,8 @@
   Statements only; proofs are in `Mhd.Proofs.Nonce` and `Mhd.Proofs.NonceInv`.
 -/
 import Mhd.Proofs.NoncePolicy
+import Mhd.Proofs.NonceGen
+import Mhd.Model.Locks
 
 namespace Mhd.C13
 open Mhd.Nonce Mhd.Gen.Nonce
@@ -500,4 +511,380 @@ theorem nul_alias_witness :
     (step (run 1 [.add 1000 exL, .check exL 1000 1, .add 1000 exA]).1 (.check exAlias 1000 1)).2 = .ok := by
   decide +kernel
 
+/-! ## nonce generation (calculate_nonce, calculate_add_nonce, calculate_add_nonce_with_retry)
+
+  `Mhd.Dauth.calcNonce cfg r realm a t` is `calculate_nonce` at the byte level: the lower-case hex text of
+  `a.hash` (the hash *specification* of C16, which `Mhd.C16.*_chunks` prove the incremental C code computes
+  for any sequence of `digest_update` chunks) of the string `Mhd.Dauth.nonceInput cfg r realm t` — six
+  big-endian time-stamp bytes, then, each preceded by ':', the daemon's random seed and what the binding
+  option `cfg.bindType` selects (socket address | IP address | method | URI | GET arguments | realm) —
+  followed by the twelve hex digits of the 48-bit time stamp.  `Mhd.NonceGen.calcAddNonce(Retry)` are
+  `calculate_add_nonce(_with_retry)` on the table.  No cryptographic claim is made anywhere: where a
+  statement needs two hash values to differ, that is an explicit hypothesis about those two concrete inputs. -/
+
+section generation
+open Mhd.Dauth Mhd.NonceGen Mhd.Gen.Dauth Mhd.Auth Mhd.Gen.Auth
+
+/-- (a) Every generated nonce has the length `NONCE_STD_LEN (digest_size)` of the algorithm it was made
+    for, consists of lower-case hexadecimal digits (no NUL), is `hex (H (bound inputs)) ‖ hex (time)`,
+    `get_nonce_timestamp` reads the generation time back (trimmed to 48 bits), it is a well-formed
+    registration in the sense of this file (`Op.Wf`), and the presence check of the verifier accepts its length. -/
+theorem generated_nonce_wellformed (cfg : Cfg) (r : Req) (realm : List UInt8) (a : Algo) (t : Nat) (n : List UInt8)
+    (h : calcNonce cfg r realm a t = some n) :
+    n.length = a.stdLen ∧ (a.stdLen = stdLenMd5 ∨ a.stdLen = stdLenSha) ∧
+    (∀ c ∈ n, isLowerHex c = true) ∧
+    (∃ x, nonceInput cfg r realm t = some x ∧ n = mkNonce (binToHex (a.hash x)) t) ∧
+    getNonceTimestamp n n.length = .ts (trim t) ∧
+    (Op.add t n).Wf ∧
+    (∀ lv : LenView, lv kNonce = some n.length → presNonce a lv = .ok ()) :=
+  ⟨calcNonce_length cfg r realm a t n h, stdLen_cases a, calcNonce_lower cfg r realm a t n h,
+   calcNonce_eq cfg r realm a t n h, calcNonce_timestamp cfg r realm a t n h, calcNonce_wf cfg r realm a t n h,
+   fun lv hl => presNonce_generated cfg r realm a t n h lv hl⟩
+
+/-- (a) … and "Get 'nonce' with basic checks" of digest_auth_check_all_inner (length = that of the client's
+    algorithm, time stamp readable, not older than `nonce_timeout`) accepts it, sent as a token or as a
+    quoted string, at every time `now` with `t ≤ now ≤ t + nonce_timeout·1000` (the product as `unsigned int`),
+    delivering the nonce and its trimmed time stamp to `check_nonce_nc`. -/
+theorem generated_nonce_passes_format_checks (cfg : Cfg) (r : Req) (realm : List UInt8) (a : Algo) (t : Nat) (n : List UInt8)
+    (h : calcNonce cfg r realm a t = some n) (d : DAuth) (p : Param) (hp : d.slots kNonce = some p)
+    (hu : getUnq p = .ok n) (now timeout : Nat) (h1 : t ≤ now) (h2 : now < W64)
+    (h3 : now - t ≤ (timeout * 1000) % 2 ^ timeoutBits) :
+    stageNonce a now timeout d = .ok (n, trim t) :=
+  stageNonce_generated cfg r realm a t n h d p hp hu now timeout h1 h2 h3
+
+/-- … and reports it stale (`MHD_DAUTH_NONCE_STALE`) after that -/
+theorem generated_nonce_expires (cfg : Cfg) (r : Req) (realm : List UInt8) (a : Algo) (t : Nat) (n : List UInt8)
+    (h : calcNonce cfg r realm a t = some n) (d : DAuth) (p : Param) (hp : d.slots kNonce = some p)
+    (hu : getUnq p = .ok n) (now timeout : Nat) (h1 : t ≤ now) (h2 : now < W64) (h4 : now - t < 2 ^ 48)
+    (h3 : now - t > (timeout * 1000) % 2 ^ timeoutBits) :
+    stageNonce a now timeout d = .error .nonceStale :=
+  stageNonce_generated_expired cfg r realm a t n h d p hp hu now timeout h1 h2 h4 h3
+
+/-- A generation (`calculate_add_nonce`) at any point of any run IS the run extended by the operation
+    `add t nonce` with a well-formed nonce: `at_most_once`, `never_issued`, `window_complete`,
+    `registration_policy`, `no_fault` … (all stated for arbitrary well-formed operation sequences) hold for
+    the sequences in which the registered nonces are the ones the daemon really derives. -/
+theorem generation_is_run_step (size : Nat) (ops : List Op) (hwf : ∀ o ∈ ops, o.Wf)
+    (cfg : Cfg) (r : Req) (realm : List UInt8) (a : Algo) (t : Nat) (tbl' : Table) (g : Gen)
+    (h : calcAddNonce cfg (run size ops).1 r realm a t = (tbl', some g)) :
+    run size (ops ++ [.add t g.nonce]) = (tbl', ⟨.add t g.nonce, outOf g⟩ :: (run size ops).2) ∧
+    (∀ o ∈ ops ++ [.add t g.nonce], o.Wf) :=
+  Mhd.NonceGen.generation_is_run_step size ops hwf cfg r realm a t tbl' g h
+
+/-- (b) Generated, then verified — the table part.  If `calculate_add_nonce` registered the nonce at time
+    `t` (at any point of any run), then right afterwards the whole vetting sequence accepts it with every
+    count `0 < c < UINT32_MAX - 64` not above `max_nc`, at every time `now` with
+    `t ≤ now ≤ t + nonce_timeout·1000` (0 = the daemon defaults). -/
+theorem generated_then_verified (size : Nat) (ops : List Op) (hwf : ∀ o ∈ ops, o.Wf)
+    (cfg : Cfg) (r : Req) (realm : List UInt8) (a : Algo) (t : Nat) (tbl' : Table) (n : List UInt8)
+    (h : calcAddNonce cfg (run size ops).1 r realm a t = (tbl', some ⟨n, true⟩))
+    (now tmo mx c : Nat) (hc0 : c ≠ 0) (hcg : c < ncGuard) (hmx : c ≤ (if mx = 0 then defMaxNc else mx))
+    (h1 : t ≤ now) (h2 : now < W64)
+    (h3 : now - t ≤ ((if tmo = 0 then defTimeout else tmo) * 1000) % 2 ^ timeoutBits) :
+    (step tbl' (.present now tmo mx a.stdLen n c)).2 = .ok := by
+  obtain ⟨hrun, hwf'⟩ := Mhd.NonceGen.generation_is_run_step size ops hwf cfg r realm a t tbl' ⟨n, true⟩ h
+  obtain ⟨hgen, _⟩ := calcAddNonce_step cfg _ tbl' r realm a t ⟨n, true⟩ h
+  have hlen := calcNonce_length cfg r realm a t n hgen
+  have hts := calcNonce_timestamp cfg r realm a t n hgen
+  have hage : trim (sub64 now (trim t)) = now - t := by
+    apply age_eq now t h1 h2
+    have : ((if tmo = 0 then defTimeout else tmo) * 1000) % 2 ^ timeoutBits < 2 ^ 32 := Nat.mod_lt _ (by decide)
+    omega
+  have hh := hist_added size ⟨.add t n, .added⟩ (run size ops).2 (slotIdx size n) rfl
+  have hr1 : (run size (ops ++ [.add t n])).1 = tbl' := by rw [hrun]
+  have hr2 : (run size (ops ++ [.add t n])).2 = ⟨.add t n, .added⟩ :: (run size ops).2 := by rw [hrun]; rfl
+  have := window_complete_present size (ops ++ [.add t n]) hwf' now tmo mx n (trim t) c
+    (by rw [hr2, hh.1]; simp [Op.nonce]) hc0 hcg (by rw [hr2, hh.2]; simp [Op.nonce])
+    (by rw [hr2, hh.2]; simp [Op.nonce]) hmx hts (by rw [hage]; exact h3)
+  rw [hr1, hlen] at this
+  exact this
+
+/-- … and at any later point of any run, as long as the nonce is still the one registered last in its
+    slot, for every fresh count inside the window (`window_complete_present` with the hypotheses about the
+    nonce's format discharged for generated nonces and the expiry condition in its natural form). -/
+theorem generated_then_verified_later (size : Nat) (ops : List Op) (hwf : ∀ o ∈ ops, o.Wf)
+    (cfg : Cfg) (r : Req) (realm : List UInt8) (a : Algo) (t : Nat) (n : List UInt8)
+    (hg : calcNonce cfg r realm a t = some n)
+    (hla : lastAdd size (run size ops).2 (slotIdx size n) = some n)
+    (now tmo mx c : Nat) (hc0 : c ≠ 0) (hcg : c < ncGuard)
+    (hnew : c ∉ usedSince size (run size ops).2 (slotIdx size n))
+    (hwin : ∀ u ∈ usedSince size (run size ops).2 (slotIdx size n), u ≤ c + 64)
+    (hmx : c ≤ (if mx = 0 then defMaxNc else mx))
+    (h1 : t ≤ now) (h2 : now < W64)
+    (h3 : now - t ≤ ((if tmo = 0 then defTimeout else tmo) * 1000) % 2 ^ timeoutBits) :
+    (step (run size ops).1 (.present now tmo mx a.stdLen n c)).2 = .ok := by
+  have hlen := calcNonce_length cfg r realm a t n hg
+  have hage : trim (sub64 now (trim t)) = now - t := by
+    apply age_eq now t h1 h2
+    have : ((if tmo = 0 then defTimeout else tmo) * 1000) % 2 ^ timeoutBits < 2 ^ 32 := Nat.mod_lt _ (by decide)
+    omega
+  have := window_complete_present size ops hwf now tmo mx n (trim t) c hla hc0 hcg hnew hwin hmx
+    (calcNonce_timestamp cfg r realm a t n hg) (by rw [hage]; exact h3)
+  rw [hlen] at this
+  exact this
+
+/-- … and a generated nonce older than the lifetime is stale for the vetting sequence, whatever the table holds -/
+theorem generated_then_expired (tbl : Table) (cfg : Cfg) (r : Req) (realm : List UInt8) (a : Algo) (t : Nat) (n : List UInt8)
+    (hg : calcNonce cfg r realm a t = some n) (now tmo mx c : Nat) (hc0 : c ≠ 0)
+    (hmx : c ≤ (if mx = 0 then defMaxNc else mx)) (h1 : t ≤ now) (h2 : now < W64) (h4 : now - t < 2 ^ 48)
+    (h3 : now - t > ((if tmo = 0 then defTimeout else tmo) * 1000) % 2 ^ timeoutBits) :
+    present tbl now tmo mx a.stdLen n c = (tbl, .stale) := by
+  have hlen := calcNonce_length cfg r realm a t n hg
+  have := expired_is_stale tbl now tmo mx n c (trim t) hc0 hmx (calcNonce_timestamp cfg r realm a t n hg)
+    (by rw [age_eq now t h1 h2 h4]; exact h3)
+  rw [hlen] at this
+  exact this
+
+/-- (b) Generated, then verified — the binding part ("The 'nonce' was generated in the same conditions").
+    With a binding option, a nonce generated for request `r` and realm `realm` passes the re-derivation
+    made for a later request `r'` (realm `call.realm`) whenever the *bound inputs* are the same — i.e. the
+    strings `nonceInput` builds for the two are equal; the verifier derives from the parsed (48-bit) time. -/
+theorem bound_same_inputs_accepted (cfg : Cfg) (a : Algo) (r r' : Req) (realm : List UInt8) (call : Call) (d : DAuth)
+    (t : Nat) (n : List UInt8) (np : Param) (hg : calcNonce cfg r realm a t = some n)
+    (hnp : d.slots kNonce = some np) (hpq : PQ np) (hun : paramUnq np = n)
+    (hsame : nonceInput cfg r' call.realm t = nonceInput cfg r realm t) :
+    stageBind cfg a r' call d (trim t) = .ok () :=
+  stageBind_same cfg a r r' realm call d t n np hg hnp hpq hun hsame
+
+/-- (b) … and is refused with `MHD_DAUTH_NONCE_OTHER_COND` (`MHD_INVALID_NONCE` through the legacy
+    functions) when the bound inputs `x` (generation) and `y` (verification) have different hashes:
+    `a.hash x ≠ a.hash y` is a hypothesis about these two concrete strings, not a cryptographic claim. -/
+theorem bound_inputs_differ_rejected (cfg : Cfg) (a : Algo) (r r' : Req) (realm : List UInt8) (call : Call) (d : DAuth)
+    (t : Nat) (n : List UInt8) (np : Param) (hg : calcNonce cfg r realm a t = some n) (hb : cfg.bindType ≠ bindNone)
+    (hnp : d.slots kNonce = some np) (hpq : PQ np) (hun : paramUnq np = n)
+    (x y : List UInt8) (hx : nonceInput cfg r realm t = some x) (hy : nonceInput cfg r' call.realm t = some y)
+    (hH : a.hash x ≠ a.hash y) :
+    stageBind cfg a r' call d (trim t) = .error .nonceOtherCond ∧ Legacy.ofRes .nonceOtherCond = .invalidNonce :=
+  ⟨stageBind_differs cfg a r r' realm call d t n np hg hb hnp hpq hun x y hx hy hH, rfl⟩
+
+/-- `MHD_DAUTH_BIND_NONCE_URI`: the same nonce presented for another URI (path) — the hashed strings
+    really differ (`x ≠ y`), so the hypothesis is exactly "no collision on this pair" -/
+theorem bound_uri_rejected (cfg : Cfg) (a : Algo) (r : Req) (u' : List UInt8) (call : Call) (d : DAuth)
+    (t : Nat) (n : List UInt8) (np : Param) (hg : calcNonce cfg r call.realm a t = some n)
+    (hopt : has cfg.bindType bindUri = true) (hu : u' ≠ r.url)
+    (hnp : d.slots kNonce = some np) (hpq : PQ np) (hun : paramUnq np = n)
+    (x y : List UInt8) (hx : nonceInput cfg r call.realm t = some x)
+    (hy : nonceInput cfg { r with url := u' } call.realm t = some y) (hH : a.hash x ≠ a.hash y) :
+    x ≠ y ∧ stageBind cfg a { r with url := u' } call d (trim t) = .error .nonceOtherCond := by
+  refine ⟨nonceInput_url_ne cfg r call.realm u' t x y hopt hu hx hy,
+    stageBind_differs cfg a r _ call.realm call d t n np hg ?_ hnp hpq hun x y hx hy hH⟩
+  intro hb; rw [hb] at hopt; revert hopt; decide
+
+/-- `MHD_DAUTH_BIND_NONCE_URI_PARAMS`: … for other GET arguments (as `calculate_nonce` serialises them:
+    `NUL NUL name NUL value` each) -/
+theorem bound_uri_params_rejected (cfg : Cfg) (a : Algo) (r : Req) (args' : List (List UInt8 × Option (List UInt8))) (call : Call)
+    (d : DAuth) (t : Nat) (n : List UInt8) (np : Param) (hg : calcNonce cfg r call.realm a t = some n)
+    (hopt : has cfg.bindType bindUriParams = true) (hu : argsForNonce args' ≠ argsForNonce r.args)
+    (hnp : d.slots kNonce = some np) (hpq : PQ np) (hun : paramUnq np = n)
+    (x y : List UInt8) (hx : nonceInput cfg r call.realm t = some x)
+    (hy : nonceInput cfg { r with args := args' } call.realm t = some y) (hH : a.hash x ≠ a.hash y) :
+    x ≠ y ∧ stageBind cfg a { r with args := args' } call d (trim t) = .error .nonceOtherCond := by
+  refine ⟨nonceInput_args_ne cfg r call.realm args' t x y hopt hu hx hy,
+    stageBind_differs cfg a r _ call.realm call d t n np hg ?_ hnp hpq hun x y hx hy hH⟩
+  intro hb; rw [hb] at hopt; revert hopt; decide
+
+/-- `MHD_DAUTH_BIND_NONCE_REALM`: … for another realm -/
+theorem bound_realm_rejected (cfg : Cfg) (a : Algo) (r : Req) (realm : List UInt8) (call : Call)
+    (d : DAuth) (t : Nat) (n : List UInt8) (np : Param) (hg : calcNonce cfg r realm a t = some n)
+    (hopt : has cfg.bindType bindRealm = true) (hu : call.realm ≠ realm)
+    (hnp : d.slots kNonce = some np) (hpq : PQ np) (hun : paramUnq np = n)
+    (x y : List UInt8) (hx : nonceInput cfg r realm t = some x)
+    (hy : nonceInput cfg r call.realm t = some y) (hH : a.hash x ≠ a.hash y) :
+    x ≠ y ∧ stageBind cfg a r call d (trim t) = .error .nonceOtherCond := by
+  refine ⟨nonceInput_realm_ne cfg r realm call.realm t x y hopt hu hx hy,
+    stageBind_differs cfg a r r realm call d t n np hg ?_ hnp hpq hun x y hx hy hH⟩
+  intro hb; rw [hb] at hopt; revert hopt; decide
+
+/-- `MHD_DAUTH_BIND_NONCE_CLIENT_IP`: … from another client address (`sin_addr` / `sin6_addr`; the port
+    is not bound) -/
+theorem bound_client_ip_rejected (cfg : Cfg) (a : Algo) (r : Req) (addr' : List UInt8) (call : Call)
+    (d : DAuth) (t : Nat) (n : List UInt8) (np : Param) (hg : calcNonce cfg r call.realm a t = some n)
+    (hopt : has cfg.bindType bindClientIp = true)
+    (hnp : d.slots kNonce = some np) (hpq : PQ np) (hun : paramUnq np = n)
+    (x y : List UInt8) (hx : nonceInput cfg r call.realm t = some x)
+    (hy : nonceInput cfg { r with addr := addr' } call.realm t = some y) (hH : a.hash x ≠ a.hash y) :
+    stageBind cfg a { r with addr := addr' } call d (trim t) = .error .nonceOtherCond := by
+  refine stageBind_differs cfg a r _ call.realm call d t n np hg ?_ hnp hpq hun x y hx hy hH
+  intro hb; rw [hb] at hopt; revert hopt; decide
+
+/-- without a binding option (`MHD_DAUTH_BIND_NONCE_NONE`, the default) the nonce is not re-derived:
+    any client may use it for any resource until it expires (documented behaviour) -/
+theorem unbound_not_rechecked (cfg : Cfg) (a : Algo) (r : Req) (call : Call) (d : DAuth) (t : Nat)
+    (hb : cfg.bindType = bindNone) : stageBind cfg a r call d t = .ok () :=
+  stageBind_none cfg a r call d t hb
+
+/-- (c) The nonce length is tied to the *client's* algorithm: whatever bytes are presented, if their
+    number is not `NONCE_STD_LEN` of the algorithm the client uses (`sl`), the vetting sequence answers
+    `MHD_DAUTH_NONCE_WRONG` and does not touch the table — in particular for an issued 44-character nonce
+    extended to 76 characters with a time stamp of the client's choice and presented with MD5 (both lengths
+    are acceptable to `get_nonce_timestamp` alone), and for a nonce generated for one algorithm presented
+    with an algorithm of the other digest size. -/
+theorem nonce_length_matches_algorithm :
+    (∀ (tbl : Table) (now tmo mx sl : Nat) (n : List UInt8) (c : Nat), c ≠ 0 → c ≤ (if mx = 0 then defMaxNc else mx) →
+       sl ≠ n.length → present tbl now tmo mx sl n c = (tbl, .wrong)) ∧
+    (∀ (a' : Algo) (now timeout : Nat) (d : DAuth) (p : Param) (n : List UInt8), d.slots kNonce = some p →
+       getUnq p = .ok n → a'.stdLen ≠ n.length → stageNonce a' now timeout d = .error .nonceWrong) ∧
+    (∀ (cfg : Cfg) (r : Req) (realm : List UInt8) (a a' : Algo) (t : Nat) (n ext : List UInt8)
+       (tbl : Table) (now tmo mx c : Nat), calcNonce cfg r realm a t = some n → c ≠ 0 →
+       c ≤ (if mx = 0 then defMaxNc else mx) → (a'.stdLen ≠ a.stdLen ∨ ext ≠ []) →
+       (a'.stdLen ≠ a.stdLen → present tbl now tmo mx a'.stdLen n c = (tbl, .wrong)) ∧
+       (ext ≠ [] → present tbl now tmo mx a.stdLen (n ++ ext) c = (tbl, .wrong))) := by
+  refine ⟨fun tbl now tmo mx sl n c hc hmx hl => present_length_tie tbl now tmo mx sl n c hc hmx hl,
+   fun a' now timeout d p n hp hu hl => stageNonce_length_tie a' now timeout d p n hp hu hl, ?_⟩
+  intro cfg r realm a a' t n ext tbl now tmo mx c hg hc hmx _
+  have hlen := calcNonce_length cfg r realm a t n hg
+  refine ⟨fun h => present_length_tie tbl now tmo mx _ n c hc hmx (by rw [hlen]; exact h),
+    fun h => present_length_tie tbl now tmo mx _ _ c hc hmx ?_⟩
+  rw [List.length_append, hlen]
+  have : ext.length ≠ 0 := fun e => h (List.eq_nil_of_length_eq_zero e)
+  omega
+
+/-! ### calculate_add_nonce_with_retry -/
+
+/-- The second attempt never re-uses the first time stamp — so the two nonces differ in their last twelve
+    characters — and, when the clock has not moved, is back-dated by 1 … `DAUTH_JUMPBACK_MAX` (127) ms:
+    such a nonce is "already `d` ms old" for the verifier and for `REUSE_TIMEOUT`. -/
+theorem retry_timestamp_differs (t1 t2 rnd : Nat) (h1 : t1 < W64) (h2 : t2 < W64) :
+    retryTime t1 t2 rnd ≠ t1 ∧ retryTime t1 t2 rnd < W64 ∧
+    (t1 = t2 → 1 ≤ sub64 t1 (retryTime t1 t2 rnd) ∧ sub64 t1 (retryTime t1 t2 rnd) ≤ jumpbackMax) :=
+  retryTime_ne t1 t2 rnd h1 h2
+
+/-- What `calculate_add_nonce_with_retry` hands to the client: the outcome of the first attempt if that
+    registered the nonce (or there is no table); otherwise the second nonce (time `retryTime`) if it could
+    be registered; otherwise the first nonce, unregistered, with return value `false` (the client's next
+    request is then answered "stale" and it retries).  Each attempt is a `calculate_add_nonce`, i.e. a
+    step `add` of the runs above (`generation_is_run_step`). -/
+theorem retry_outcome (cfg : Cfg) (tbl tbl' : Table) (r : Req) (realm : List UInt8) (a : Algo) (t1 t2 rnd : Nat) (g : Gen)
+    (h : calcAddNonceRetry cfg tbl r realm a t1 t2 rnd = (tbl', some g)) :
+    (calcAddNonce cfg tbl r realm a t1 = (tbl', some g) ∧ (g.added = true ∨ tbl.length = 0)) ∨
+    (∃ tbl1 g1 g2, calcAddNonce cfg tbl r realm a t1 = (tbl1, some g1) ∧ g1.added = false ∧ tbl.length ≠ 0 ∧
+       calcAddNonce cfg tbl1 r realm a (retryTime t1 t2 rnd) = (tbl', some g2) ∧
+       ((g2.added = true ∧ g = g2) ∨ (g2.added = false ∧ g = g1))) :=
+  retry_cases cfg tbl tbl' r realm a t1 t2 rnd g h
+
+/-! ### non-vacuity: a concrete daemon (bind = URI, seed "se"), request `GET /a`, realm "r", MD5, t = 1000
+    (`decide +kernel` evaluates closed terms, MD5 included; these are instances, not the proofs) -/
+
+def gCfg : Cfg := ⟨bindUri, [115, 101], 90, 1000, true⟩
+def gReq : Req := { method := [71, 69, 84], mthd := 1, url := [47, 97], args := [], hdrs := [], addr := [] }
+def gCall : Call := ⟨[114], [117], .password [112], 0, 0, 2, 127⟩
+/-- the nonce `calculate_nonce` makes for it -/
+def gNonce : List UInt8 := (calcNonce gCfg gReq [114] .md5 1000).getD []
+def gD : DAuth := { slots := fun k => if k = kNonce then some ⟨0, gNonce, false⟩ else none,
+                    userhash := false, algo3 := 1, qop := 2 }
+
+set_option maxRecDepth 100000 in
+theorem gNonce_gen : calcNonce gCfg gReq [114] .md5 1000 = some gNonce := by decide +kernel
+
+example : gNonce.length = 44 ∧ getNonceTimestamp gNonce 44 = .ts 1000 := by
+  have h := generated_nonce_wellformed gCfg gReq [114] .md5 1000 gNonce gNonce_gen
+  have hl : gNonce.length = 44 := h.1
+  exact ⟨hl, by have := h.2.2.2.2.1; rw [hl] at this; exact this⟩
+set_option maxRecDepth 100000 in
+/-- generated on an empty 2-slot table at t = 1000: registered; presented at t = 90 999 with count 7: accepted;
+    at t = 91 001: stale -/
+theorem gAdd : calcAddNonce gCfg (run 2 []).1 gReq [114] .md5 1000 =
+    ((calcAddNonce gCfg (run 2 []).1 gReq [114] .md5 1000).1, some ⟨gNonce, true⟩) := by decide +kernel
+example : (step (calcAddNonce gCfg (run 2 []).1 gReq [114] .md5 1000).1 (.present 90999 0 0 44 gNonce 7)).2 = .ok :=
+  generated_then_verified 2 [] (by intro o ho; cases ho) gCfg gReq [114] .md5 1000 _ gNonce gAdd 90999 0 0 7
+    (by decide) (by decide) (by decide) (by decide) (by decide) (by decide)
+example : present [] 91001 0 0 44 gNonce 7 = ([], .stale) :=
+  generated_then_expired [] gCfg gReq [114] .md5 1000 gNonce gNonce_gen 91001 0 0 7 (by decide) (by decide) (by decide)
+    (by decide) (by decide) (by decide)
+example : stageNonce .md5 90999 90 gD = .ok (gNonce, 1000) :=
+  generated_nonce_passes_format_checks gCfg gReq [114] .md5 1000 gNonce gNonce_gen gD ⟨0, gNonce, false⟩ rfl rfl 90999 90
+    (by decide) (by decide) (by decide)
+-- the same request verifies; `GET /b` does not (the two MD5 values differ: evaluated)
+example : stageBind gCfg .md5 gReq gCall gD (trim 1000) = .ok () :=
+  bound_same_inputs_accepted gCfg .md5 gReq gReq [114] gCall gD 1000 gNonce ⟨0, gNonce, false⟩ gNonce_gen rfl
+    (by intro h; cases h) rfl rfl
+set_option maxRecDepth 100000 in
+example : stageBind gCfg .md5 { gReq with url := [47, 98] } gCall gD (trim 1000) = .error .nonceOtherCond :=
+  (bound_uri_rejected gCfg .md5 gReq [47, 98] gCall gD 1000 gNonce ⟨0, gNonce, false⟩ gNonce_gen (by decide) (by decide) rfl
+    (by intro h; cases h) rfl _ _ rfl rfl (by decide +kernel)).2
+/-- the seeded-change scenario of (c): the issued nonce, 20 more characters and a time stamp of the client's
+    choice, presented with MD5: wrong -/
+example : present [] 2000 0 0 44 (gNonce ++ List.replicate 20 48 ++ hexTs 2000) 1 = ([], .wrong) :=
+  nonce_length_matches_algorithm.1 [] 2000 0 0 44 _ 1 (by decide) (by decide) (by
+    have : gNonce.length = 44 := (generated_nonce_wellformed gCfg gReq [114] .md5 1000 gNonce gNonce_gen).1
+    simp [this, hexTs, tsChars, timestampBinSize])
+/-- retry: same clock value, `random ()` = 12345 → back-dated time stamp (evaluated) -/
+example : retryTime 5000 5000 12345 ≠ 5000 ∧ 5000 - retryTime 5000 5000 12345 ≤ 127 := by decide +kernel
+example : jumpBack 0 ≤ 127 ∧ retryTime 1 1 4 < W64 := by decide +kernel
+
+end generation
+
+/-! ## concurrency: one model step = one critical section of `nnc_lock`
+
+  "These guarantees hold for any order and interleaving of requests, including concurrent ones."
+  The table `Mhd.Gen.Locks.table` is regenerated from the clang AST of digestauth.c (and daemon.c,
+  connection.c, response.c) by tools/locktable.py at every run: per function the lock / unlock events and
+  every access to a member of `struct MHD_NonceNc` (`nonce`, `nc`, `nmask`; field `nnc`), each with the set
+  of mutexes held on *all* paths from the function entry (`must`) and the set certainly held at entry on every
+  call path (`entryMust`, certified by `contextOk`: implied at every call site). -/
+
+section concurrency
+open Mhd.Gen.Locks Mhd.Locks
+
+/-- every access to a slot of the nonce-nc map is made with `nnc_lock` held -/
+def nncUnderLock (t : List Entry) : Bool :=
+  t.all fun en => en.events.all fun e =>
+    match e.kind with
+    | .acc .nnc _ => (effMust en e).contains Lock.nnc_lock
+    | _ => true
+
+/-- while `nnc_lock` may be held: no callback into the application, no thread join / wait, no other mutex
+    requested, and the only function called is `is_slot_available` (which takes no lock) -/
+def nncSectionPlain (t : List Entry) : Bool :=
+  t.all fun en => en.events.all fun e =>
+    !(effMay en e).contains Lock.nnc_lock ||
+      (match e.kind with
+       | .callback => false
+       | .join => false
+       | .wait => false
+       | .lock _ => false
+       | .call k => (t[k]?.map fun ce => ce.name == "is_slot_available" && ce.events.all fun e' =>
+                      match e'.kind with
+                      | .acc .nnc _ => true
+                      | _ => false) == some true
+       | _ => true)
+
+/-- the functions that touch the map -/
+def nncFunctions (t : List Entry) : List String :=
+  (t.filter fun en => en.events.any fun e => match e.kind with | .acc .nnc _ => true | _ => false).map (·.name)
+
+/-- **The nonce-nc map is accessed only under `nnc_lock`.**  In the regenerated table:
+    (1) every read and write of a slot member is made while `nnc_lock` is held on all paths (locked in the
+        function itself, or certainly held by every caller — `is_slot_available`);
+    (2) the entry contexts used in (1) are implied by every call site (`contextOk`, `idsOk`);
+    (3) the functions that touch the map are exactly check_nonce_nc, is_slot_available,
+        calculate_add_nonce — the three the model steps `check` / `add` mirror;
+    (4) a critical section is plain computation: no application callback, no blocking call, no second
+        mutex, so it terminates and cannot deadlock.
+    Hence concurrent presentations and registrations are linearised at the lock: every concurrent
+    execution is equivalent to *some sequence* of model steps, and `at_most_once`, `never_issued`,
+    `window_complete`, … — stated for *arbitrary* sequences — cover all interleavings.  (That a pthread
+    mutex provides mutual exclusion is assumed; C18 validates the locking dynamically with TSan.) -/
+theorem nonce_table_accessed_only_under_lock :
+    (∀ en ∈ table, ∀ e ∈ en.events, ∀ w, e.kind = Kind.acc Field.nnc w → Lock.nnc_lock ∈ effMust en e) ∧
+    (idsOk table = true ∧ contextOk table = true) ∧
+    nncFunctions table = ["check_nonce_nc", "is_slot_available", "calculate_add_nonce"] ∧
+    nncSectionPlain table = true := by
+  refine ⟨?_, ⟨by decide +kernel, by decide +kernel⟩, by decide +kernel, by decide +kernel⟩
+  have h : nncUnderLock table = true := by decide +kernel
+  intro en hen e he w hk
+  have h1 := List.all_eq_true.mp h en hen
+  have h2 := List.all_eq_true.mp h1 e he
+  rw [hk] at h2
+  exact List.contains_iff_mem.mp h2
+
+/-- non-vacuity: the table does contain locked reads and writes of the map, in both critical sections -/
+example : ∃ en ∈ table, en.name = "check_nonce_nc" ∧ ∃ e ∈ en.events, e.kind = Kind.acc Field.nnc true ∧
+    Lock.nnc_lock ∈ effMust en e := by decide +kernel
+example : ∃ en ∈ table, en.name = "calculate_add_nonce" ∧ ∃ e ∈ en.events, e.kind = Kind.acc Field.nnc true ∧
+    Lock.nnc_lock ∈ effMust en e := by decide +kernel
+example : ∃ en ∈ table, en.name = "is_slot_available" ∧ en.entryMust = [Lock.nnc_lock] ∧
+    ∃ e ∈ en.events, e.kind = Kind.acc Field.nnc false := by decide +kernel
+
+end concurrency
 end Mhd.C13
